@@ -24,6 +24,20 @@
 (* goroutine closes its done channel without waiting for its predecessor), FixF5 = FALSE the  *)
 (* pinned AddRef (calls a nil callback on a resolved container, panicking with the mutex      *)
 (* held; the execution is dead afterwards).                                                   *)
+(*                                                                                          *)
+(* Values.  The implementation state holds GENERATIONS (value / cval / sv / tgt = the number   *)
+(* of the resolver call that produced the value): a ghost identity.  What the code can see is  *)
+(* the RAW value ps.raw[n]; the monitor is given raw values only (RawOf at every event), and   *)
+(* the one place where the code compares two values (Access's reference callback) compares     *)
+(* raw values.  With SameCall = k > 0 resolver call k returns the raw value of the latest      *)
+(* earlier call that returned a value (an equal value: singleton / cached object), so that the *)
+(* monitor's reading of ambiguous observations is model checked against every interleaving.    *)
+(* The behaviours of the implementation part xs do not depend on SameCall (only the monitor     *)
+(* component ps of a state does): between two resolved states of the container every reference *)
+(* is told "unresolved" (clearResolvedState), so no comparison in the pinned code is decided by *)
+(* two resolved values being equal -- action labels and schedules are those of the distinct-    *)
+(* values model, and the driver replays them unchanged with the scenario field `samecall`.     *)
+(* (`zerocall`, the zero value of T, exists in the driver and the monitor only.)                *)
 EXTENDS RefCountP
 
 CONSTANTS
@@ -34,6 +48,7 @@ CONSTANTS
     CbOuts,    \* Access callback outcomes offered: subset of {"nil","err"}
     MaxRes,    \* bound: resolver calls
     MaxG,      \* bound: resolve goroutines
+    SameCall,  \* 0, or the resolver call that returns a value equal to the previous generation's
     FixF4, FixF5
 
 Procs == 1..Len(Prog)
@@ -68,6 +83,11 @@ AscSeq(S) == IF S = {} THEN <<>>
               ELSE LET a == CHOOSE a \in S : \A b \in S : a <= b IN <<a>> \o AscSeq(S \ {a})
 
 Owner(m, r) == CHOOSE p \in Procs : m.x.cc[p].id = r
+
+\* the raw value resolver call n returns when it returns a value (s: monitor state)
+RawFor(s, n) ==
+    LET prev == {k \in 1..(n - 1) : IsVal(s, k)} IN
+    IF n = SameCall /\ prev # {} THEN s.raw[CHOOSE k \in prev : \A j \in prev : j <= k] ELSE n
 
 -----------------------------------------------------------------------------
 (* Reference callbacks (run under RefCount.mtx) *)
@@ -108,16 +128,16 @@ WrCb(m, r, res, v, e) ==
 AccCb(m, r, res, v, e) ==
     LET p == Owner(m, r)
         c == m.x.cc[p]
-    IN IF res # c.cresd \/ v # c.cval \/ e # c.cerr
+    IN IF res # c.cresd \/ RawOf(m.p, v) # RawOf(m.p, c.cval) \/ e # c.cerr      \* nowVal != currVal: raw values
        THEN BcastP([m EXCEPT !.x.cc[p].cresd = res, !.x.cc[p].cval = v, !.x.cc[p].cerr = e, !.x.cc[p].chg = TRUE], p)
        ELSE m
 
 RefCb(m, r, res, v, e) ==
     LET kd == m.x.kind[r] IN
     CASE kd \in {"nil", "mute"} -> m
-      [] kd = "log" -> [m EXCEPT !.p = PCbk(@, r, res, v, e)]
+      [] kd = "log" -> [m EXCEPT !.p = PCbk(@, r, res, RawOf(@, v), e)]
       [] kd = "rel" ->
-           LET m1 == [m EXCEPT !.p = PCbk(@, r, res, v, e)]
+           LET m1 == [m EXCEPT !.p = PCbk(@, r, res, RawOf(@, v), e)]
                n == IF v # 0 THEN v ELSE e
            IN IF res /\ r \notin m.x.fired
               THEN \* the callback calls released() of the result it was given: TryLock fails
@@ -146,7 +166,7 @@ ClearResolved(m) ==
               THEN [m1 EXCEPT !.x.gs[m1.x.rcur].canc = TRUE, !.x.rcur = 0]
               ELSE m1
     IN IF m2.x.vrel # 0
-       THEN [m2 EXCEPT !.p = PRel(@, m2.x.vrel, m2.x.tgt), !.x.vrel = 0]
+       THEN [m2 EXCEPT !.p = PRel(@, m2.x.vrel, RawOf(@, m2.x.tgt)), !.x.vrel = 0]
        ELSE m2
 
 Shutdown(m) == ClearResolved([m EXCEPT !.x.nonce = @ + 1])
@@ -213,7 +233,7 @@ SettleG(m, g) ==
 
 RetOk(m, p, v) ==
     LET id == m.x.cc[p].id IN
-    [m EXCEPT !.p = PRet(@, id, "ok", v, 0), !.x.got[p] = (m.x.ip[p] :> id) @@ @,
+    [m EXCEPT !.p = PRet(@, id, "ok", RawOf(@, v), 0), !.x.got[p] = (m.x.ip[p] :> id) @@ @,
               !.x.pc[p] = "idle", !.x.ip[p] = @ + 1,
               !.x.kind[id] = IF @ = "wait" THEN "mute" ELSE @]
 
@@ -240,7 +260,7 @@ CbDoneIds(m) == {m.x.cc[p].id : p \in {q \in Procs : m.x.pc[q] = "incb" /\ m.x.c
 Finish(m) ==
     LET m1 == WakeP(SettleG(m, 1), 1) IN
     IF LibQuietM(m1) /\ ~m1.x.dead
-    THEN [m1 EXCEPT !.p = PQuiet(@, m1.x.tgt, m1.x.tgterr, Active(m1.p), BlkIds(m1), InCbIds(m1), CbDoneIds(m1), {})]
+    THEN [m1 EXCEPT !.p = PQuiet(@, RawOf(@, m1.x.tgt), m1.x.tgterr, Active(m1.p), BlkIds(m1), InCbIds(m1), CbDoneIds(m1), {})]
     ELSE m1
 
 Do(m) == LET r == Finish(m) IN xs' = r.x /\ ps' = r.p
@@ -293,7 +313,7 @@ ResReturn(n, out) ==
     /\ LET isv == out \in {"val", "valnr"}
            rel == out \in {"val", "errrel"}
        IN Do([M EXCEPT !.x.gs[xs.cg[n]].pc = "ret", !.x.cout[n] = [k |-> IF isv THEN "val" ELSE "err", r |-> rel],
-                       !.p = PLeave(@, n, IF isv THEN "val" ELSE "err", rel)])
+                       !.p = PLeaveR(@, n, IF isv THEN "val" ELSE "err", rel, RawFor(@, n))])
 
 (* resolve(): the store section (refcount.go: "assert we are still the resolver" ...) *)
 ResStore(g) ==
@@ -303,7 +323,7 @@ ResStore(g) ==
            m == M
        IN IF m.x.nonce # m.x.gs[g].nonce
           THEN \* stale: release at once (deferred valRel, still under the mutex)
-               Do([(IF o.r THEN [m EXCEPT !.p = PRel(@, n, m.x.tgt)] ELSE m) EXCEPT !.x.gs[g].pc = "done"])
+               Do([(IF o.r THEN [m EXCEPT !.p = PRel(@, n, RawOf(@, m.x.tgt))] ELSE m) EXCEPT !.x.gs[g].pc = "done"])
           ELSE LET v == IF o.k = "val" THEN n ELSE 0
                    e == IF o.k = "err" THEN n ELSE 0
                    m1 == [m EXCEPT !.x.resolved = TRUE, !.x.value = v, !.x.verr = e, !.x.vrel = IF o.r THEN n ELSE 0,
@@ -368,7 +388,7 @@ AccGo(p) ==
           THEN \* spawn the watcher, enter the callback
                Do([m EXCEPT !.x.aw = Append(@, [p |-> p, k |-> c.k + 1, pc |-> "spawned"]),
                             !.x.cc[p].k = c.k + 1, !.x.cc[p].cbc = FALSE, !.x.pc[p] = "incb",
-                            !.p = PCbEnter(@, c.id, c.k + 1, c.sv)])
+                            !.p = PCbEnter(@, c.id, c.k + 1, RawOf(@, c.sv))])
           ELSE IF c.wch = "closed" THEN Do([m EXCEPT !.x.pc[p] = "asnap"])
           ELSE Do([m EXCEPT !.x.pc[p] = "asel"])
 
